@@ -11,6 +11,7 @@ import LimnoriaModel.C18.ArgsInv
 import LimnoriaModel.C18.PluginCons
 import LimnoriaModel.C18.Threads
 import LimnoriaModel.C18.HeapLemmas
+import LimnoriaModel.C18.HeapHole
 import LimnoriaModel.C18.Loop
 namespace C18
 open Py List
@@ -301,6 +302,14 @@ example : Heap.heappop (Heap.heappush (Heap.heapify [⟨5, .num 0, [], 0⟩, ⟨
       ⟨3, .num 3, [], 3⟩]) ⟨1, .num 4, [], 4⟩) =
     some (⟨1, .num 4, [], 4⟩, [⟨3, .num 3, [], 3⟩, ⟨3, .num 1, [], 1⟩, ⟨9, .num 2, [], 2⟩, ⟨5, .num 0, [], 0⟩]) := by
   decide
+
+/-- **`heapq` as it is written** (Lib/heapq.py: `_siftdown` / `_siftup` move a hole and write the item
+back once) computes the same lists as the swap model the theorems above are about: they are theorems
+about the code as written; the driver of the differential heap stream runs the literal transcription. -/
+theorem heapq_as_written (h : Heap.H) (x : Entry) :
+    Heap.heappushC h x = Heap.heappush h x ∧ Heap.heappopC h = Heap.heappop h ∧
+    Heap.heapifyC h = Heap.heapify h :=
+  ⟨Heap.heappushC_eq h x, Heap.heappopC_eq h, Heap.heapifyC_eq h⟩
 
 /-! ## threads and the lock -/
 
